@@ -132,7 +132,16 @@ def shard_header(ctx, arg):
                     b[pos] = v
                     attempt(ctx, dex, mon, fixed(b), "wrong-magic-byte%d" % pos, "a buffer with a wrong magic is not rejected", {"file": fi, "pos": pos, "value": v})
                     ctx.sig("magic", pos, v & 0xF0)
-            for tag in [0x78563412, 0, 0xFFFFFFFF, 0x12345679, 0x12345600, 0x02345678] + [rng.getrandbits(32) for _ in range(10)]:
+            # structured wrong tags: every byte permutation of the constant, every 4-byte window of two constants written one after the other (in
+            # both byte orders), every single-bit and single-byte change of the constant; then random ones
+            import itertools
+            le, be = struct.pack("<I", 0x12345678), struct.pack(">I", 0x12345678)
+            near = {struct.unpack("<I", bytes(p))[0] for p in itertools.permutations(le)}
+            for two in (le + be, be + le, le + le, be + be):
+                near |= {struct.unpack("<I", two[k:k + 4])[0] for k in range(5)}
+            near |= {0x12345678 ^ (1 << k) for k in range(32)}
+            near |= {(0x12345678 & ~(0xFF << (8 * k))) | (v << (8 * k)) for k in range(4) for v in (0, 0xFF, 0x12, 0x34, 0x56, 0x78)}
+            for tag in [0x78563412, 0, 0xFFFFFFFF, 0x12345679, 0x12345600, 0x02345678] + sorted(near) + [rng.getrandbits(32) for _ in range(10)]:
                 if tag == 0x12345678:
                     continue
                 b = bytearray(data)
